@@ -419,6 +419,8 @@ def defs_for(h, findings, skip=None, extra=None):
 
 def cbmc_opts(h):
     o = list(CBMC_SAFETY if h.get('safety', True) else [x for x in CBMC_SAFETY if x not in ('--pointer-overflow-check', '--signed-overflow-check', '--undefined-shift-check')])
+    if h.get('fs'):    # per-harness override of --max-field-sensitivity-array-size (256 helps most units, but makes symex of byte-array heavy units crawl)
+        i_ = o.index('--max-field-sensitivity-array-size'); o[i_ + 1] = str(h['fs'])
     o += ['--unwind', str(h.get('unwind', 10))]
     if h.get('unwindset'): o += ['--unwindset', ','.join('%s:%d' % kv for kv in h['unwindset'].items())]
     o += h.get('opts', [])
